@@ -631,6 +631,25 @@ def c12(d, run):
     run.assumptions = BASE_ASSUME + ["select! fairness: a continuously ready arm is eventually taken (the harness takes every ready arm)"]
 
 
+def _metrics_unbounded(d, run):
+    """MetricsWrapInd.tla: the counters' arithmetic at the code's real width (2^64, deltas up to 2^63-1) for ANY number of operations --
+    an inductive invariant discharged by Apalache (Init => IndInv; IndInv /\\ Next => IndInv'), and the plain-sum witness."""
+    base = d.apalache("MetricsWrapInd.tla", run.workdir, "IndInv", 0)
+    step = d.apalache("MetricsWrapInd.tla", run.workdir, "IndInv", 1, init="IndInit")
+    wit = d.apalache("MetricsWrapInd.tla", run.workdir, "PlainSumFits", 4)
+    note = {"module": "MetricsWrapInd.tla (stripes of width 2^64, deltas 1..2^63-1, no bound on the number of operations)",
+            "base_case": base["status"], "inductive_step": step["status"],
+            "plain_sum_witness": {"error": "found (as expected, D13)", "ok": "NOT found", "unavailable": "unavailable"}[wit["status"]],
+            "wall_s": round(base["wall"] + step["wall"] + wit["wall"], 1)}
+    run.notes["apalache_inductive"] = note
+    for nm, r in (("base case", base), ("inductive step", step)):
+        if r["status"] == "error":
+            run.violation("MetricsWrapInd.tla: IndInv fails its %s (the wrapping sum of two's-complement stripes is not the net)" % nm,
+                          replay_lines=[r["out"][-4000:]])
+    if wit["status"] == "ok":
+        raise d.ToolError("MetricsWrapInd: the expected overflow of a plain sum (defect D13) was not found by Apalache")
+
+
 def c17(d, run):
     # the counters' arithmetic: striped, two's-complement deltas, wrapping sum (what Cache.tla abstracts into integers)
     mw = d.tlc_mc("MetricsWrap.tla", "MetricsWrap.cfg", run.workdir, workers=2, timeout=600)
@@ -641,6 +660,8 @@ def c17(d, run):
     if "PlainSumFits" not in pw["violated"]:
         raise d.ToolError("MetricsWrap_plain: the expected overflow of a plain sum (defect D13) was not found")
     run.notes["metrics_witness"] = "MetricsWrap_plain.cfg: a plain (non-wrapping) sum of the stripes overflows, as expected (D13)"
+    if _thorough(run):
+        _metrics_unbounded(d, run)
     mc = d.tlc_mc("MC_Histogram.tla", "MC_Histogram.cfg", run.workdir, workers=2)
     run.add_mc(mc, "MC_Histogram (bounds 2,4,8; values on/around bounds; <= 6 updates / clears: count = sum of buckets, percentile rule)")
     if mc["violated"]:
